@@ -79,7 +79,7 @@ def build(unit):
         if st.startswith("//@item") or st.startswith("//@slice"):
             is_slice = st.startswith("//@slice")
             d = kv(st)
-            clauses, sig, pre, post, drops = [], "", [], [], []
+            clauses, sig, pre, post, drops, wrap = [], "", [], [], [], ""
             i += 1
             while i < len(lines) and lines[i].strip() != "//@end":
                 l = lines[i].strip()
@@ -93,6 +93,8 @@ def build(unit):
                     post.append("    " + l[len("//@post"):].strip())
                 elif l.startswith("//@drop"):
                     drops.append(l[len("//@drop"):].strip())
+                elif l.startswith("//@wrap"):
+                    wrap = l[len("//@wrap"):].strip()
                 elif l:
                     errors.append(f"{unit.path}:{i+1}: unexpected line inside directive: {l}")
                 i += 1
@@ -106,6 +108,8 @@ def build(unit):
                     body = extract.transform(body, exlog["rules_applied"], where)
                     body = extract.drop_statements(body, drops, exlog["dropped"], where)
                     text = sig + "\n" + "\n".join(clauses) + ("\n" if clauses else "") + "{\n" + "\n".join(pre) + ("\n" if pre else "") + body.rstrip() + "\n" + "\n".join(post) + ("\n" if post else "") + "}\n"
+                    if wrap:
+                        text = wrap + " {\n" + text + "}\n"
                     exlog["items"].append({"kind": "slice", "file": d["file"], "fn": d["fn"],
                                            "lines": [extract.line_of(src, s), extract.line_of(src, e)],
                                            "bytes": e - s, "sha256": sha256_bytes(src[s:e].encode())[:16]})
